@@ -5,6 +5,7 @@
 -/
 import PydapModel.Ssf
 import Proofs.Ssf
+import Proofs.SsfProxy
 namespace Pydap.C19
 open Pydap Pydap.Handler Pydap.Ssf
 
@@ -148,6 +149,26 @@ theorem C19_bounds (iv : Axis → Int × Int) (cols : List (Option Axis)) (rows 
   refine ⟨e, ?_, inIv_iff⟩
   unfold bounds; rw [e]; exact List.filter_sublist
 
+/-- **The function proxy's id string parses back to the call tree it was built from**, character by
+    character, for call trees of any depth and any arity (zero included, since the repair of
+    `tokenize`): `render` is `ServerFunction.__call__`'s `name + "(" + ",".join(params) + ")"` with
+    nested results contributing their own id, `parseCall` is `eval_function` (FUNCTION regexp: first
+    `(`, last `)`; split at the commas where the parenthesis count is 0; recursion on tokens that match
+    FUNCTION).  `Arg.Ok`: names and leaf texts contain none of `(`, `)`, `,` and leaves are not empty
+    — variable ids, numbers as `%.6g` prints them, quoted strings without these characters.  The
+    evaluator's own fuel (the length of the text) suffices, as does any fuel ≥ the nesting depth. -/
+theorem C19_proxy (t : Arg) (h : t.Ok) :
+    parseCall (render t).length (render t) = t ∧
+    ∀ fuel, t.depth ≤ fuel → parseCall fuel (render t) = t :=
+  ⟨parseCall_render t h _ (depth_le_length t), fun fuel hf => parseCall_render t h fuel hf⟩
+
+/-- the guard is sharp: a string argument that contains a comma is split into two tokens (`encode`
+    does not escape and the tokeniser does not know quotes), and an empty leaf is indistinguishable
+    from no argument -/
+theorem C19_proxy_guard_sharp :
+    parseCall 9 (render (.call cs!"f" [.tok cs!"\"a,b\""])) = .call cs!"f" [.tok cs!"\"a", .tok cs!"b\""] ∧
+    parseCall 3 (render (.call cs!"f" [.tok []])) = .call cs!"f" [] := ⟨rfl, rfl⟩
+
 /-! ### non-vacuity -/
 
 example : functionMatch cs!"mean(mean(g,0),1)" = some (cs!"mean", cs!"mean(g,0),1") := by decide
@@ -157,5 +178,11 @@ example : meanArr ⟨[2, 3], [cs!"y", cs!"x"], [1, 2, 3, 4, 5, 6], 1⟩ 0 = .ok 
 example : meanArr ⟨[2, 3], [cs!"y", cs!"x"], [1, 2, 3, 4, 5, 6], 1⟩ 1 = .ok ⟨[2], [cs!"y"], [6, 15], 3⟩ := by decide
 example : bounds (fun a => match a with | .x => (1, 3) | .y => (5, 5) | .z => (0, 9)) [some .x, none, some .y]
     [[1, 0, 5], [4, 0, 5], [2, 7, 5], [3, 0, 6]] = [[1, 0, 5], [2, 7, 5]] := by decide
+example : render (.call cs!"mean" [.call cs!"mean" [.tok cs!"g.v", .tok cs!"0"], .call cs!"now" [], .tok cs!"-1.5e+06"])
+    = cs!"mean(mean(g.v,0),now(),-1.5e+06)" := by decide
+example : (Arg.call cs!"mean" [.call cs!"mean" [.tok cs!"g.v", .tok cs!"0"], .call cs!"now" [], .tok cs!"-1.5e+06"]).Ok := by
+  simp only [Arg.Ok, Arg.OkList]; decide
+example : parseCall 40 cs!"mean(mean(g.v,0),now(),-1.5e+06)"
+    = .call cs!"mean" [.call cs!"mean" [.tok cs!"g.v", .tok cs!"0"], .call cs!"now" [], .tok cs!"-1.5e+06"] := rfl
 
 end Pydap.C19
